@@ -5,12 +5,13 @@ LEVEL = 'model_checking'
 def run(c):
     c.assumptions += [
         'In(): an arbitrary subset of the states is placed in the configuration (the predicate must not depend on legality); both the rfsm-expression and the null datamodel are run',
-        'read-only harnesses iterate hash maps in insertion order (env map_order=insertion): set_event builds a 7-entry map whose iteration order cannot matter for the obligations and would otherwise multiply the paths by 7!',
+        'all C09 harnesses except binding iterate hash maps in insertion order (env map_order=insertion): set_event builds a 7-entry map and add_functions copies the action table entry by entry; the iteration order cannot matter for the obligations and would otherwise multiply the paths by k!',
         'binding: the logging stub VDm records initializeDataModel(state, set) calls; the real Fsm::interpret runs start-up plus three external events with re-entry of a state',
     ]
     c.outside += ['ECMAScript datamodel (boa engine): not encodable', 'In() at evaluation points inside a microstep is covered by the guard log of C02 only for the stub datamodel']
     ins = {'map_order': 'insertion'}
-    c.run_m('h_c09_in', expect_checks=(901, 902), expect_cover=(901,), bounds={'configuration': 'every subset of 7 states', 'queried state': 'each', 'datamodel': 'rfsm-expression / null'})
-    c.run_m('h_c09_readonly', expect_checks=(911, 912, 913), expect_cover=(911,), env=ins, bounds={'locations': '_sessionid _name _event _ioprocessors _event.name _event.sendid _event.data + one writable', 'via': '<assign> and script'})
+    c.run_m('h_c09_in', expect_checks=(901, 902), expect_cover=(901,), env=ins, bounds={'configuration': 'every subset of 7 states', 'queried state': 'each', 'datamodel': 'rfsm-expression / null'})
+    c.run_m('h_c09_readonly', expect_checks=(911, 912, 913), expect_cover=(911,), env=ins, bounds={'locations': '_sessionid _name _event _ioprocessors _event.name _event.sendid _event.data _ioprocessors[..].location _event.data.<member> + one writable', 'via': '<assign>, script =, script ?=, <foreach item>, <foreach index>'})
     c.run_m('h_c09_event', expect_checks=(921, 922, 923), expect_cover=(921,), env=ins, bounds={'optional fields': 'all presence combinations', 'payload': 'none / params / content', 'value': 'any i64'})
-    c.run_m('h_c09_binding', expect_checks=(931,), expect_cover=(931,), bounds={'shapes': '3 (compound, parallel, finals)', 'binding': 'early / late', 'events': 'leave and re-enter a state'})
+    c.run_m('h_c09_in_shared', expect_checks=(941, 942), expect_cover=(941,), env=ins, bounds={'sessions': 'a session and a child started with a copy of its action table', 'configuration': 'every subset of 7 states', 'queried state': 'each'})
+    c.run_m('h_c09_binding', expect_checks=(931,), expect_cover=(931,), bounds={'shapes': '3 (compound, parallel, finals)', 'binding': 'early / late', 'root': 'entered at start-up (external initial transition) / never entered (reader-built, internal)', 'events': 'leave and re-enter a state'})
